@@ -10,6 +10,7 @@
 #include <stdlib.h>
 #include <stdio.h>
 #include <string.h>
+#include <strings.h>
 #include <ctype.h>
 #include "cstring_model.h"
 #include "stdio_model.h"
@@ -27,6 +28,17 @@
 #undef fgets
 #undef fclose
 #undef sscanf
+#undef strtol
+#undef strtoll
+#undef strtoul
+#undef strtoull
+#undef atol
+#undef atoll
+#undef strtod
+#undef atof
+#undef strncmp
+#undef strcasecmp
+#undef strncasecmp
 
 #define strlen  vm_strlen
 #define strcpy  vm_strcpy
@@ -41,4 +53,16 @@
 #define fgets   vm_fgets
 #define fclose  vm_fclose
 #define sscanf  vm_sscanf
+/* not used by the unchanged sources; modelled so that an edit switching to them stays decidable */
+#define strtol   vm_strtol
+#define strtoll  vm_strtoll
+#define strtoul  vm_strtoul
+#define strtoull vm_strtoull
+#define atol     vm_atol
+#define atoll    vm_atoll
+#define strtod   vm_strtod
+#define atof     vm_atof
+#define strncmp  vm_strncmp
+#define strcasecmp  vm_strcasecmp
+#define strncasecmp vm_strncasecmp
 #endif
